@@ -21,6 +21,7 @@ hmod!(c01_hybrid, "c01_hybrid.rs");
 hmod!(c04_mac, "c04_mac.rs");
 hmod!(c07_circuits, "c07_circuits.rs");
 hmod!(c03_push, "c03_push.rs");
+hmod!(c07_more, "c07_more.rs");
 hmod!(c13_gateway, "c13_gateway.rs");
 hmod!(c06_prss, "c06_prss.rs");
 hmod!(c19_reshard, "c19_reshard.rs");
@@ -41,6 +42,7 @@ fn registry() -> Vec<&'static dyn Scenario> {
     v.extend(c06_prss::scenarios());
     v.extend(c07_circuits::scenarios());
     v.extend(c03_push::scenarios());
+    v.extend(c07_more::scenarios());
     v.extend(c13_gateway::scenarios());
     v.extend(c15_seqjoin::scenarios());
     v.extend(c17_parsers::scenarios());
